@@ -50,6 +50,12 @@ pub fn install_panic_hook() {
     }));
 }
 
+/// Inside a `catch_unwind` on the current thread: the (message, location) the
+/// hook recorded for the panic that was just caught.
+pub fn take_panic_info() -> Option<PanicInfo> {
+    PANICS.get().and_then(|m| m.lock().unwrap().remove(&std::thread::current().id()))
+}
+
 pub fn set_quiet(q: bool) {
     QUIET.store(q, Ordering::Relaxed);
 }
